@@ -36,6 +36,7 @@ type countingSource struct {
 	first    int // override of the first value returned (-99 = none)
 	length   int // -1 infinite
 	ill      bool
+	illValue int // the out-of-range value returned instead of -1 (ill-behaved sources)
 	calls    atomic.Int64
 	pos      int
 	ended    bool
@@ -60,7 +61,7 @@ func (c *countingSource) next() int {
 	if c.length >= 0 && c.pos >= c.length {
 		c.ended = true
 		if c.ill {
-			return 12 // out of range instead of -1 (v3 treats any out-of-range value as the end)
+			return c.illValue // out of range instead of -1 (v3 treats any out-of-range value as the end)
 		}
 		return -1
 	}
@@ -125,12 +126,20 @@ func newScriptNumber(v int, desc string) (*scriptEnv, string) {
 		n = newRoot(v, 3, "bigrat", bigOf(parts[1]), bigOf(parts[2]))
 	case "R":
 		n = newRat(v, bigOf(parts[1]), bigOf(parts[2]))
-	case "T", "TM":
+	case "T", "TM", "TS":
 		if v != 3 {
 			return nil, "na"
 		}
 		exp, _ := strconv.Atoi(parts[3])
 		f, rp := digitsOf(parts[1]), digitsOf(parts[2])
+		if parts[0] == "TS" {
+			// one backing array: [fixed | 2 spare cells | repeating]; fixed's capacity reaches over repeating
+			buf := make([]int, 0, len(f)+2+len(rp))
+			buf = append(buf, f...)
+			buf = append(buf, 4, 2)
+			buf = append(buf, rp...)
+			f, rp = buf[:len(f)], buf[len(f)+2:]
+		}
 		x, err := sq3.NewNumberForTesting(f, rp, exp)
 		if err != nil {
 			return nil, "err:" + strings.ReplaceAll(err.Error(), " ", "_")
@@ -163,10 +172,11 @@ func newScriptNumber(v int, desc string) (*scriptEnv, string) {
 	case "G":
 		length, _ := strconv.Atoi(parts[1])
 		exp, _ := strconv.Atoi(parts[2])
-		if v != 3 && parts[3] == "1" {
+		if v != 3 && parts[3] != "0" {
 			return nil, "na" // v1/v2 only understand -1 as the end marker; ill-behaved sources are a v3 (NewNumber) matter
 		}
-		env.src = &countingSource{length: length, ill: parts[3] == "1", first: -99}
+		illv := map[string]int{"1": 12, "2": 261, "3": -251, "4": 65543, "5": 1 << 40}[parts[3]]
+		env.src = &countingSource{length: length, ill: parts[3] != "0", illValue: illv, first: -99}
 		if len(parts) > 4 {
 			if v != 3 {
 				return nil, "na"
